@@ -37,9 +37,14 @@ impl NatProp {
 
 /// The stack pointer is at the machine's stack top (0: these machines never call init_stack), in the
 /// emulator's convention (RSP + 8) or the hardware's (RSP): only there may a RET end the run (C11).
+#[allow(dead_code)]
 fn top_level_rsp(c: &NCase) -> bool {
     c.gpr[4] == 0 || c.gpr[4].wrapping_add(8) == 0
 }
+/// These machines never call init_stack, so no RET of theirs is a top-level return: a RET that ends the run
+/// is compared with the CPU like any other outcome (it used to be discarded while RSP + 8 wrapping to the
+/// unset stack top, 0, was taken for the emulator's convention; that was defect #34 of the census).
+const NEVER_TOP_LEVEL: bool = false;
 
 /// The machine could not be put into the case's state: inconclusive, never a verdict on the emulator.
 pub fn harness_fault(d: &Diff) -> Option<CaseOut> {
@@ -388,7 +393,7 @@ impl Property for NatProp {
         if noncanonical_transfer(&d) {
             return CaseOut::discard("non-canonical-branch-target (vendor-specific fault point)");
         }
-        if d.ins.mnemonic() == Mnemonic::Ret && matches!(d.emu, Emu::Ok(false)) && top_level_rsp(c) {
+        if d.ins.mnemonic() == Mnemonic::Ret && matches!(d.emu, Emu::Ok(false)) && NEVER_TOP_LEVEL {
             // RSP + 8 equals the machine's stack_top (0 here: no init_stack): the emulator's
             // "top-level RET finishes the run" convention, which is C11's subject
             return CaseOut::discard("top-level-ret-finish (C11)");
@@ -864,7 +869,7 @@ impl NatProp {
         if noncanonical_transfer(&d) {
             return CaseOut::discard("non-canonical-branch-target (vendor-specific fault point)");
         }
-        if d.ins.mnemonic() == Mnemonic::Ret && matches!(d.emu, Emu::Ok(false)) && top_level_rsp(c) {
+        if d.ins.mnemonic() == Mnemonic::Ret && matches!(d.emu, Emu::Ok(false)) && NEVER_TOP_LEVEL {
             return CaseOut::discard("top-level-ret-finish (C11)");
         }
         let mut out = CaseOut::pass(true, fp).class(format!("form:{}", code));
